@@ -73,6 +73,15 @@ class Evaluator:
             return z3.BoolVal(False)
         if isinstance(v, VStr):
             return z3.BoolVal(bool(v.s))
+        if isinstance(v, VList) and v.nd:
+            # numpy: truth value of an array with more than one element is ambiguous (ValueError); empty arrays are falsy
+            cell = st.heap.lists[v.ref]
+            self.oblige(st, 'truth', 'array-truth-value-unambiguous', cell.length <= 1, None, raises='ValueError')
+            if cell.etype == 'bool':
+                return z3.And(cell.length == 1, cell.leaves[0][0])
+            if cell.etype == 'int':
+                return z3.And(cell.length == 1, cell.leaves[0][0] != 0)
+            raise Unsupported('truthiness of an array of %r' % (cell.etype,))
         if isinstance(v, VList):
             return st.heap.lists[v.ref].length > 0
         if isinstance(v, VTuple):
@@ -100,6 +109,10 @@ class Evaluator:
             return as_int(a) == as_int(b)
         if isinstance(a, VElem) and isinstance(b, VElem):
             return a.t == b.t
+        if isinstance(a, VElem) and isinstance(b, VStr):
+            return a.t == str_elem(b.s)
+        if isinstance(a, VStr) and isinstance(b, VElem):
+            return b.t == str_elem(a.s)
         if isinstance(a, VStr) and isinstance(b, VStr):
             return z3.BoolVal(a.s == b.s)
         if isinstance(a, VTuple) and isinstance(b, VTuple):
@@ -369,7 +382,7 @@ class Evaluator:
                 try:
                     nxt = self.ev(nxt_node, st)
                 finally:
-                    del st.pc[save:]
+                    del st.pc[save]      # keep definitional axioms appended meanwhile
                 if isinstance(cur, VBool) and isinstance(nxt, (VBool,)):
                     cur = VBool(z3.Or(cur.t, nxt.t) if is_or else z3.And(cur.t, nxt.t))
                     continue
@@ -426,6 +439,8 @@ class Evaluator:
             return self.list_concat(a, b, st)
         if isinstance(a, VTuple) and isinstance(b, VTuple) and isinstance(op, ast.Add):
             return VTuple(a.items + b.items)
+        if isinstance(a, VStr) and isinstance(op, ast.Mod) and a.s == '__%s__' and isinstance(b, (VElem, VStr)):
+            return VDunder(b)
         if isinstance(a, VStr) and isinstance(op, ast.Mod):
             return VStr(a.s % (b.s if isinstance(b, VStr) else '?')) if isinstance(b, VStr) else VStr(a.s)
         if isinstance(a, VStr) and isinstance(b, VStr) and isinstance(op, ast.Add):
@@ -495,11 +510,26 @@ class Evaluator:
         terms = []
         for op, rn in zip(node.ops, node.comparators):
             right = self.ev(rn, st)
-            terms.append(self.compare(op, left, right, st, node))
+            t = self.compare(op, left, right, st, node)
+            if isinstance(t, tuple):
+                if len(node.ops) != 1:
+                    raise Unsupported('chained comparison with an ndarray')
+                return t[1]
+            terms.append(t)
             left = right
         return VBool(z3.And(terms) if len(terms) > 1 else terms[0])
 
     def compare(self, op, a, b, st, node):
+        if isinstance(op, (ast.Eq, ast.NotEq)) and ((isinstance(a, VList) and a.nd) or (isinstance(b, VList) and b.nd)):
+            # numpy: comparison with an ndarray is elementwise; the result is an array of the same length
+            arr, other = (a, b) if isinstance(a, VList) and a.nd else (b, a)
+            cell = st.heap.lists[arr.ref]
+            res, n = st.heap.fresh_list('bool', 'cmp')
+            st.assume(n == cell.length)
+            if not is_num(other):
+                k = z3.Int(fresh_name('k'))
+                st.assume(z3.ForAll([k], z3.Implies(z3.And(k >= 0, k < n), st.heap.lists[res.ref].leaves[0][k] == z3.BoolVal(isinstance(op, ast.NotEq)))))
+            return ('ndbool', VList(res.ref, nd=True))
         if isinstance(op, ast.Eq):
             return self.eq(a, b, st)
         if isinstance(op, ast.NotEq):
@@ -544,6 +574,9 @@ class Evaluator:
                 return z3.And(container.start <= x, x < container.stop)
         raise Unsupported('membership test in %r' % (container,))
 
+    def ev_Slice(self, node, st):
+        return VSlice(*[self.ev(x, st) if x is not None else VNone() for x in (node.lower, node.upper, node.step)])
+
     def ev_Subscript(self, node, st):
         base = self.ev(node.value, st)
         if isinstance(node.slice, ast.Slice):
@@ -572,6 +605,11 @@ class Evaluator:
         if isinstance(base, VList):
             if isinstance(sl, VSlice):
                 return self.list_slice(base, sl, st, node)
+            if isinstance(sl, VTuple):
+                h = self.subscript_hook(base, sl, st, node)
+                if h is not None:
+                    return h
+                raise Unsupported('multi-dimensional index on %r (line %s)' % (base, getattr(node, 'lineno', '?')))
             return self.list_get(base, as_int(sl), st, node)
         if isinstance(base, VRange) and not isinstance(sl, VSlice):
             i = as_int(sl)
@@ -582,7 +620,23 @@ class Evaluator:
         raise Unsupported('subscript of %r (line %s)' % (base, getattr(node, 'lineno', '?')))
 
     def subscript_hook(self, base, sl, st, node):
+        # rows[:, cols] on a block of opaque rows: row-wise column selection (definition of op_row('cols', cols, row))
+        if isinstance(base, VList) and isinstance(sl, VTuple) and len(sl.items) == 2 and isinstance(sl.items[0], VSlice) \
+                and all(isinstance(x, VNone) for x in (sl.items[0].start, sl.items[0].stop, sl.items[0].step)):
+            return self.map_rows(base, VStr('cols'), sl.items[1], st)
         return None
+
+    def map_rows(self, rows, op, arg, st):
+        cell = st.heap.lists[rows.ref]
+        if cell.etype != 'elem':
+            return None
+        OPR = z3.Function('op_row', Elem, Elem, Elem, Elem)
+        res, n = st.heap.fresh_list('elem', 'rows')
+        st.assume(n == cell.length)
+        k = z3.Int(fresh_name('k'))
+        ra = st.heap.lists[res.ref].leaves[0]
+        st.assume(z3.ForAll([k], z3.Implies(z3.And(k >= 0, k < n), ra[k] == OPR(flatten('elem', op)[0], flatten('elem', arg)[0], cell.leaves[0][k]))))
+        return VList(res.ref, nd=True)
 
     def ev_Attribute(self, node, st):
         base = self.ev(node.value, st)
@@ -601,6 +655,8 @@ class Evaluator:
             raise Unsupported('attribute %s of %r' % (attr, base))
         if isinstance(base, VModule):
             return VFunc('module', base.name + '.' + attr)
+        if isinstance(base, VBlocks) and attr == 'append':
+            return VFunc('blocksmethod', attr, self_val=base)
         if isinstance(base, VList) and attr in ('append', 'extend'):
             return VFunc('listmethod', attr, self_val=base)
         if isinstance(base, VRec) and attr in ('get', 'pop'):
@@ -626,19 +682,33 @@ class Evaluator:
         guards = []
         saved = dict(st.env)
         st.spec += 1
+        tmp_marks = []
+
+        def push_guard(g):
+            st.pc.append(g)
+            tmp_marks.append(g)
         try:
             for comp in node.generators:
                 it = self.ev(comp.iter, st)
+                if isinstance(it, VFunc) and it.kind == 'elems':
+                    ke = z3.Const(fresh_name(comp.target.id if isinstance(comp.target, ast.Name) else 'q'), Elem)
+                    bound.append(ke)
+                    self.bind_target(comp.target, VElem(ke), st)
+                    for cond in comp.ifs:
+                        guards.append(self.truth(self.ev(cond, st), st))
+                    continue
                 k = z3.Int(fresh_name(comp.target.id if isinstance(comp.target, ast.Name) else 'q'))
                 bound.append(k)
                 if isinstance(it, VRange):
                     if const_int(it.step) != 1:
                         raise Unsupported('quantifier over stepped range')
                     guards.append(z3.And(it.start <= k, k < it.stop))
+                    push_guard(guards[-1])
                     self.bind_target(comp.target, VInt(k), st)
                 elif isinstance(it, VList):
                     cell = st.heap.lists[it.ref]
                     guards.append(z3.And(k >= 0, k < cell.length))
+                    push_guard(guards[-1])
                     self.bind_target(comp.target, build(cell.etype, iter([a[k] for a in cell.leaves])), st)
                 else:
                     raise Unsupported('quantifier over %r' % (it,))
@@ -648,7 +718,12 @@ class Evaluator:
         finally:
             st.spec -= 1
             st.env = saved
-        g = z3.And(guards) if len(guards) > 1 else guards[0]
+            for g in tmp_marks:
+                for i in range(len(st.pc) - 1, -1, -1):
+                    if st.pc[i] is g:
+                        del st.pc[i]
+                        break
+        g = z3.And(guards) if len(guards) > 1 else (guards[0] if guards else z3.BoolVal(True))
         if universal:
             return VBool(z3.ForAll(bound, z3.Implies(g, body)))
         return VBool(z3.Exists(bound, z3.And(g, body)))
